@@ -85,8 +85,8 @@ _L1D_NOTE = ("Trusted: Lean kernel, standard axioms, hand model L1D.lean tied BI
 CHECKS["C01"] = {
     "level": "proof",
     "text": "Kernel-checked over every ordered field, EVERY loss function with any number of neighbouring intervals, every op "
-            "list valid in the property's sense (points in bounds, batch only once both end points are known or pending; tell, "
-            "tell_pending, tell_many both paths, remove_unfinished, ask): (1) one loss per neighbouring pair, both containers in "
+            "list with points in bounds (batched tells need NOT wait for the end points any more since the repo fix 1cb5cb1 - stronger than "
+            "the property's proviso; tell, tell_pending, tell_many both paths, remove_unfinished, ask): (1) one loss per neighbouring pair, both containers in "
             "ItemSortedDict order; (2) VALUE INVARIANT: each stored loss is the loss function on the data held now at an output "
             "scale between the last full recomputation and the current one, never more than the factor out of date; exact with "
             "factor 1; (3) each piece cut out by pending points has the proportional share, infinite exactly where no evaluated "
@@ -97,8 +97,8 @@ CHECKS["C01"] = {
 }
 CHECKS["C02"] = {
     "level": "proof",
-    "text": "Kernel-checked for every state reachable by a valid history (points in bounds, batch only once both end points are known "
-            "or pending), every loss function and request size: ask returns exactly n distinct in-domain points none of which is "
+    "text": "Kernel-checked for every state reachable by a history with points in bounds (incl. batched tells before the end points "
+            "are known, since the repo fix 1cb5cb1), every loss function and request size: ask returns exactly n distinct in-domain points none of which is "
             "evaluated or pending; missing bounds first; empty learner samples uniformly; the rest are equal subdivisions of pairwise "
             "different intervals between neighbouring known points; greedy water-filling is optimal for every monotone rounding "
             "(proved for the concrete loop: for every non-negative loss function the allocation ask computes is optimal, c02_allocation_optimal_nonneg). Tie: bit-exact "
